@@ -522,7 +522,20 @@ func s1Pair(a, b s1.Interval, probes []float64) (string, string) {
 		}
 		if m.runs(I) <= 1 {
 			if S != I {
-				return pfx + fmt.Sprintf("%s = [%.17g,%.17g] differs from the (connected) intersection", r.name, r.iv.Lo, r.iv.Hi), ""
+				// Nested operands: the implementation picks "the shorter" by comparing
+				// float64 lengths; when the lengths tie within rounding it may return
+				// the containing operand (longer by < tieTol). Anything else is wrong.
+				tie := false
+				if I == A && r.iv == b || I == B && r.iv == a {
+					cont, inner := b, a
+					if r.iv == a {
+						cont, inner = a, b
+					}
+					tie = arcLen(cont) <= arcLen(inner)+tieTol
+				}
+				if !tie {
+					return pfx + fmt.Sprintf("%s = [%.17g,%.17g] differs from the (connected) intersection", r.name, r.iv.Lo, r.iv.Hi), ""
+				}
 			}
 		} else {
 			var other s1.Interval
@@ -755,6 +768,11 @@ func checkS1Point(c s1PointCase) ev.Outcome {
 	np := normPi(p)
 	o.NonTrivial = ka != "N" || math.Abs(a.Lo) == pi || math.Abs(a.Hi) == pi || math.Abs(p) == pi || np == normPi(a.Lo) || np == normPi(a.Hi) || c.MRel >= 2 && c.MRel <= 5
 
+	// Length of a non-empty interval is documented to be non-negative.
+	if ka != "E" && a.Length() < 0 {
+		o.Finding = findingWrapLength
+		return fail("Length() = %g for a non-empty interval (exact length %.17g)", a.Length(), arcLen(a))
+	}
 	// AddPoint
 	S := set(add)
 	switch {
@@ -817,7 +835,9 @@ func checkS1Point(c s1PointCase) ev.Outcome {
 		}
 	case c.M >= 0:
 		if !A.subsetOf(E) {
-			o.Finding = "s1-expanded-lost-points"
+			if a.Length() < 0 {
+				o.Finding = findingWrapLength
+			}
 			return fail("Expanded = [%.17g,%.17g] lost points of the interval", exp.Lo, exp.Hi)
 		}
 		exact := l + 2*c.M
@@ -838,7 +858,6 @@ func checkS1Point(c s1PointCase) ev.Outcome {
 		}
 	default: // negative margin: shrinks
 		if !E.subsetOf(A) {
-			o.Finding = "s1-shrink-gained-points"
 			return fail("Expanded (negative margin) = [%.17g,%.17g] contains points outside the interval", exp.Lo, exp.Hi)
 		}
 		exact := l + 2*c.M
@@ -860,6 +879,11 @@ func checkS1Point(c s1PointCase) ev.Outcome {
 	}
 	return o
 }
+
+// findingWrapLength: the one-ulp interval across ±π, [π, −π+ulp]: Hi−Lo rounds
+// to exactly −2π, Length() returns −1 (the "empty" marker) and Expanded builds a
+// small interval on the far side of the circle.
+const findingWrapLength = "s1-length-negative-nonempty"
 
 // normAngle reduces x (|x| ≤ 3π here) to (-π,π] in float64.
 func normAngle(x float64) float64 {
